@@ -66,7 +66,11 @@ StepChecks(ev, pre, e, c) ==
   AbstractChecks(obs, e, c) \o
   << <<"functional", RefPay(ev, pre) = "skip" \/ obs.pay = RefPay(ev, pre)>>,
      <<"position", ev.a = "GeoNotation" => SamePosNotation(ev.prepos, obs.pos)>>,
-     <<"closure", seen[e.form] = <<>> \/ PosClose(e.form, seen[e.form], obs.pos)>> >>
+     <<"closure", seen[e.form] = <<>> \/ PosClose(e.form, seen[e.form], obs.pos)>>,
+     \* a conversion returns a NEW object (Coord!Post computes the successor from the source, which stays what it was):
+     \* the source observed after the call is bit-identical, and converting it once more gives the same object again
+     <<"source_unchanged", ev.srcsame>>,
+     <<"same_again_from_the_same_source", ev.again>> >>
 
 Report(clause) == PrintT(<<"FAIL", tid, l, clause>>)
 
